@@ -55,7 +55,7 @@ mkcfg MCConn_t_rc_handler_close.cfg 2  1  1  0  "$U1" "$N" 0  TRUE  FALSE FALSE 
 mkcfg MCConn_t_rc_handler_cancel.cfg 2 1  1  0  "$N"  "$N" 0  TRUE  FALSE TRUE  FALSE FALSE handler FALSE FALSE FALSE FALSE FALSE FALSE SafetySpec ""
 mkcfg MCConn_t_rc_handler.cfg       2  1  1  1  "$N"  "$N" 0  TRUE  TRUE  TRUE  FALSE FALSE handler FALSE FALSE FALSE FALSE FALSE FALSE SafetySpec ""
 mkcfg MCConn_t_rc_other.cfg         2  1  1  1  "$N"  "$N" 0  TRUE  TRUE  TRUE  FALSE FALSE other  FALSE FALSE FALSE FALSE FALSE FALSE SafetySpec ""
-mkcfg MCConn_t_rc3.cfg              3  1  1  0  "$N"  "$N" 0  TRUE  TRUE  FALSE FALSE FALSE handler FALSE FALSE FALSE FALSE FALSE FALSE Spec "$LIVE"
+mkcfg MCConn_t_rc3.cfg              3  1  1  0  "$N"  "$N" 0  TRUE  TRUE  FALSE FALSE FALSE handler FALSE FALSE FALSE FALSE FALSE FALSE SafetySpec ""
 mkcfg MCConn_t_out.cfg              1  2  0  0  "$N" '{"s1","s2"}' 3 TRUE FALSE FALSE FALSE FALSE none FALSE FALSE FALSE FALSE FALSE FALSE SafetySpec ""
 # defect variants: TLC must report a violation (sensitivity of the model, DESIGN 6.4)
 mkcfg MCConn_defect_drainonce.cfg   1  1  3  2  "$U1" "$N" 0  TRUE  TRUE  FALSE FALSE FALSE none   FALSE FALSE TRUE  FALSE FALSE FALSE Spec "$LIVE"
